@@ -343,6 +343,10 @@ def corpus : List Case :=
       "reparse-error;repr" "same;repr",
     srcCase "C12-corpus-28" "corpus/decimal" "good" "[0.5, -0.001, 1e-7, 1e21, 123456789.5, 1.5e300]" "same;repr" "same;repr",
     srcCase "C12-corpus-29" "corpus/str.repr" "good" "//str.repr(//str.repr('a\\'b'))" "same;raw" "same;raw",
+    -- printing panicked inside Format (Less of two byte arrays / of two union sets): repaired by C06's commits
+    srcCase "C12-corpus-36" "corpus/less" "good" "{<<233, 167>>, <<53, 7>>, 2\\<<53, 7>>}" "same;repr" "same;repr",
+    srcCase "C12-corpus-37" "corpus/less" "good" "{{(a: 1), (b: 2)}, {(a: 1), (b: 3)}}" "same;repr" "same;repr",
+    srcCase "C12-corpus-38" "corpus/less" "good" "{{(a: 1), (b: 2)}: 1, {(a: 1), (b: 3)}: 2}" "same;repr" "same;repr",
     cfgCase "C12-corpus-30" "corpus" [34, 92, 10, 1, 127, 0xE9, 0x1F600, 39] [],
     cfgCase "C12-corpus-31" "corpus" [1, 65, 66] [0x85, 70, 0xAD, 97, 0x2028, 98, 0xE0001, 99],
     bundleCase "C12-corpus-32" ([97, 32, 34, 39, 92, 0xE9, 0x1F600, 1, 0x85, 70] ++ [46, 97, 114, 114, 97, 105]),
